@@ -1,4 +1,5 @@
 import I18n.Driver.Plural
+import I18n.Driver.PluralLR
 import I18n.Driver.CheckPlurals
 import I18n.Driver.Mo
 import I18n.Driver.CFmt
@@ -13,6 +14,7 @@ open I18n.Driver
 def step (line : String) : String :=
   match (line.trimAscii.toString.splitOn " ").filter (· ≠ "") with
   | "plural" :: op :: args => Plural.handle op args
+  | "plurallr" :: op :: args => PluralLR.handle op args
   | "checkplurals" :: op :: args => CheckPlurals.handle op args
   | "mo" :: op :: args => Mo.handle op args
   | "cfmt" :: op :: args => CFmt.handle op args
